@@ -349,6 +349,14 @@ func genEngCase(r *rng, idx int) engCase {
 			c.script = append(c.script, e)
 		}
 	}
+	// a burst of malformed packets read back to back (forty within one microsecond, so no idle poll separates them): every
+	// one of them is retryable, however many there are
+	if r.intn(8) == 0 && len(used) < 850 {
+		base := time.Duration(r.intn(int(c.timeout/msNs))) * msNs
+		for k := 0; k < 40; k++ {
+			c.script = append(c.script, scriptEntry{ttl: c.first, ip: 1, kind: 1, delay: base + resid()})
+		}
+	}
 	if r.intn(5) == 0 {
 		// external cancellation at an arbitrary instant of the run (or after it)
 		c.cancelAt = time.Duration(1+r.intn(horizon+100))*msNs + 333
